@@ -76,6 +76,8 @@ type SessSpec struct {
 	NoFinalClose bool                `json:"no_final_close,omitempty"`
 	GroupName  string                `json:"group,omitempty"`
 	Rollbacks  map[int]uint64        `json:"rollbacks,omitempty"` // vb -> R: the first stream request of vb is answered ROLLBACK(R)
+	RollbackAt map[int]int           `json:"rollback_at,omitempty"` // vb -> which request (1-based) gets the ROLLBACK answer (default 1)
+	ReqFail    map[int][2]int        `json:"req_fail,omitempty"`    // vb -> (request index, status): that stream request is answered with an error status
 	Failover   map[int][][2]uint64   `json:"failover,omitempty"`  // vb -> failover log (uuid, seq), newest first
 	CBFaults   []CBFault             `json:"cb_faults,omitempty"` // faults on checkpoint xattr writes (couchbase back end)
 	Membership string                `json:"membership,omitempty"` // "" static 1/1 | dynamic (fed through PUT /membership/info)
@@ -303,20 +305,27 @@ func RunSession(spec *SessSpec) *Trace {
 		}
 		env.Sim.SetFailover(uint16(vb), f)
 	}
-	if len(spec.Rollbacks) > 0 {
+	if len(spec.Rollbacks) > 0 || len(spec.ReqFail) > 0 {
 		var rmu sync.Mutex
-		done := map[int]bool{}
+		nreq := map[int]int{}
 		env.Sim.Hook = func(r *cbsim.Req) *cbsim.Action {
 			if r.Op != cbsim.OpDcpStreamReq {
 				return nil
 			}
 			rmu.Lock()
 			defer rmu.Unlock()
+			nreq[int(r.VB)]++
+			if rf, ok := spec.ReqFail[int(r.VB)]; ok && rf[0] == nreq[int(r.VB)] {
+				return &cbsim.Action{HasStatus: true, Status: uint16(rf[1])}
+			}
 			R, ok := spec.Rollbacks[int(r.VB)]
-			if !ok || done[int(r.VB)] {
+			at := spec.RollbackAt[int(r.VB)]
+			if at == 0 {
+				at = 1
+			}
+			if !ok || nreq[int(r.VB)] != at {
 				return nil
 			}
-			done[int(r.VB)] = true
 			b := make([]byte, 8)
 			for i := 0; i < 8; i++ {
 				b[7-i] = byte(R >> (8 * uint(i)))
